@@ -59,7 +59,7 @@ def gen_case(seed, n, tier="quick"):
     # request body pipe fills while more chunk data is already buffered (back-pressure path of the dechunker)
     c["bigslow"] = (n % 83 == 7)
     if c["bigslow"]:
-        c.update(framing="chunked", len=6 * 1024 * 1024 + r.randrange(0, 5000), chunks=[r.choice([65536, 100000, 1 << 20, 4097]) for _ in range(4)],
+        c.update(framing="chunked", len=4 * 1024 * 1024 + r.randrange(0, 5000), chunks=[r.choice([65536, 100000, 1 << 20, 4097]) for _ in range(4)],
                  expect=False, abort=False, early_reply=False, nsplits=0, delay=0, pause_at=None, trailers=[], exts=["", "", "", ""])
     return c
 
@@ -162,11 +162,13 @@ def run(a, res):
         if c and c.get("bigslow"):
             import socket as _s
             try:
-                req.sock.setsockopt(_s.SOL_SOCKET, _s.SO_RCVBUF, 8192)
+                req.sock.setsockopt(_s.SOL_SOCKET, _s.SO_RCVBUF, 32768)
             except OSError:
                 pass
-            time.sleep(2.5)
-            req.recv_size, req.recv_pause = 16384, 0.004   # keep draining slowly (about 4 MB/s) until the end of the upload
+            time.sleep(1.0)
+            # keep draining slowly (a few MB/s, in few large reads so that a loaded machine does not stretch it) until the
+            # end of the upload: the client writes at loopback speed, so squid's request body pipe stays full to the very end
+            req.recv_size, req.recv_pause = 65536, 0.02
             res.count("bigslow_uploads")
         exp = httpref.get(req.headers, "Expect")
         if c and exp and exp.lower() == "100-continue" and c["origin_sends_100"]:
@@ -306,6 +308,8 @@ def run(a, res):
                 if abort_at is not None and len(client_prefix) < len(body):
                     res.violation("body-invented", f"upstream complete with the full body although the client sent only {len(client_prefix)}/{len(body)} bytes", wit(c))
                     continue
+                if c.get("bigslow"):
+                    res.count("bigslow_uploads_complete_and_identical_upstream")
                 res.feature(*feat, "complete", up.framing)
             else:
                 res.count("upstream_incomplete")
